@@ -716,6 +716,8 @@ class Engine:
             return None
         for ab in abss:
             pat, kind, note = ab[0], ab[1], ab[2]
+            if pat.endswith("(*") and src.startswith(pat[:-1]):
+                pat = src  # a call pattern `f(*`: every call of f in this function, whatever its arguments
             if src == pat and len(ab) > 3:
                 # the expression is SOME function of the listed arguments (an uninterpreted function the contracts can name)
                 ufname, argsrc = ab[3]
